@@ -31,13 +31,24 @@ pub struct Obs {
     pub pos0: usize,
 }
 
+/// Source-level unrolling (no CBMC loop): the harness's own buffer loops must
+/// not dictate the unwind bound, which is sized for rubato's loops only.
+#[macro_export]
+macro_rules! unroll32 {
+    ($i:ident, $n:expr, $body:block) => {
+        $crate::unroll32!(@go $i, $n, $body, 0, 1, 2, 3, 4, 5, 6, 7, 8, 9, 10, 11, 12, 13, 14, 15, 16, 17, 18, 19, 20, 21, 22,
+            23, 24, 25, 26, 27, 28, 29, 30, 31)
+    };
+    (@go $i:ident, $n:expr, $body:block, $($k:literal),*) => {
+        $( if $k < $n { let $i: usize = $k; $body } )*
+    };
+}
+
 /// Fill `buf` with the index signal starting at global position `pos`.
 pub fn fill_line<T: Sample>(buf: &mut [T], pos: usize) {
-    let mut i = 0;
-    while i < buf.len() {
-        buf[i] = T::coerce(BASE + pos + i);
-        i += 1;
-    }
+    assert!(buf.len() <= 32);
+    let n = buf.len();
+    unroll32!(i, n, { buf[i] = T::coerce(BASE + pos + i); });
 }
 
 /// One single-channel `process_into_buffer` call. `s_in`/`s_out` are the
@@ -67,11 +78,7 @@ where
     nd.assume(in_len <= MAXIN && out_len <= MAXOUT);
     fill_line(&mut xin[..], *pos);
     let sent = T::coerce(SENT_F);
-    let mut i = 0;
-    while i < MAXOUT {
-        out[i] = sent;
-        i += 1;
-    }
+    *out = [sent; MAXOUT];
     let res = r.process_into_buffer(&[&xin[..in_len]], &mut [&mut out[..out_len]], None);
     let (ok, n_in, n_out) = match res {
         Ok((a, b)) => (true, a, b),
@@ -79,15 +86,14 @@ where
     };
     let mut written_hi = 0;
     let mut dense = true;
-    let mut i = 0;
-    while i < MAXOUT {
+    assert!(MAXOUT <= 32);
+    unroll32!(i, MAXOUT, {
         if out[i] != sent {
             written_hi = i + 1;
         } else if i < n_out {
             dense = false;
         }
-        i += 1;
-    }
+    });
     let o = Obs {
         next_in,
         next_out,
